@@ -314,6 +314,11 @@ func conv(in *interpreter, tDst, tSrc types.Type, x value) value {
 	}
 
 	switch x := x.(type) {
+	case opaqueFloat:
+		if b, ok := utDst.(*types.Basic); ok && b.Info()&types.IsFloat != 0 {
+			return x
+		}
+		panic(unsupported{"float: conversion of an opaque float"})
 	case *sym:
 		return symConv(tDst, tSrc, x)
 	case sstr:
